@@ -140,6 +140,9 @@ structure Ep where
   nStarted : Nat := 0
   /-- ghost: every octet handed to `recv_raw`, in order -/
   rxBytes : Bytes := []
+  /-- inside the `recv_raw` loop: later messages of the same read (or an undecodable octet) are still
+      in `__rx_buf` while this message is handled -/
+  rxMore : Bool := false
   deriving Repr, DecidableEq, Inhabited
 
 abbrev Res := Ep × List Out
@@ -182,7 +185,7 @@ def doClose (e : Ep) : Res :=
 
 /-- `Messenger.is_sess_idle` ∧ ContactHandler's additional conditions -/
 def isSessIdle (e : Ep) : Bool :=
-  e.rx.buf.isEmpty && e.txBuf.isEmpty && e.connBuf.isEmpty && e.rxTmp.isNone && e.txTmp.isNone
+  e.rx.buf.isEmpty && !e.rxMore && e.txBuf.isEmpty && e.connBuf.isEmpty && e.rxTmp.isNone && e.txTmp.isNone
     && e.txPendStart.isEmpty && e.txPendAck.isEmpty
 
 /-- `_check_sess_term` -/
@@ -378,7 +381,7 @@ def handleMsgs : Ep → List Msg → Res
   | e, [] => (e, [])
   | e, m :: ms =>
     if e.closed then (e, []) else
-    let r1 := handleMsg e m
+    let r1 := handleMsg { e with rxMore := !ms.isEmpty || e.rx.dead } m
     let r2 := handleMsgs r1.1 ms
     (r2.1, r1.2 ++ r2.2)
 
@@ -388,7 +391,8 @@ def rxEntry (e : Ep) (chunk : Bytes) : Ep :=
 
 /-- `recv_raw(chunk)` -/
 def recvRaw (e : Ep) (chunk : Bytes) : Res :=
-  let r1 := handleMsgs (rxEntry e chunk) (feed e.rx chunk).2
+  let r0 := handleMsgs (rxEntry e chunk) (feed e.rx chunk).2
+  let r1 : Res := ({ r0.1 with rxMore := false }, r0.2)
   if (feed e.rx chunk).1.dead then
     let r2 := doClose r1.1
     (r2.1, r1.2 ++ r2.2)
